@@ -102,8 +102,10 @@ func (blockExec *BlockExecutor) CreateProposalBlock(
 
 	evidence, evSize := blockExec.evpool.PendingEvidence(state.ConsensusParams.Evidence.MaxBytes)
 
-	// Fetch a limited amount of valid txs
-	maxDataBytes := types.MaxDataBytes(maxBytes, evSize, state.Validators.Size())
+	// Fetch a limited amount of valid txs. The block carries the commit of the
+	// previous height, which has one slot per member of the previous validator
+	// set: budget for that, not for the size of the current set.
+	maxDataBytes := types.MaxDataBytes(maxBytes, evSize, commit.Size())
 
 	txs := blockExec.mempool.ReapMaxBytesMaxGas(maxDataBytes, maxGas)
 
